@@ -573,6 +573,12 @@ def extra_names() -> list[str]:
         for slash in LOOKALIKE_SLASHES:
             out.append(n.replace("/", slash))
         out.append(n.replace("..", LOOKALIKE_DOTS[0]).replace("/", LOOKALIKE_SLASHES[0]))
+        # the other platform's separator is an ordinary character here: a name is not a walk because it would be
+        # one after converting `\\` to `/` - unless something converts it after the name was validated
+        out.append(n.replace("/", "\\"))
+        out.append(n.replace("/", "\\", 1))
+        out.append("\\".join(n.rsplit("/", 1)))
+        out.append(n.replace("../", "..\\"))
     for rel in ("base/secret.txt", "elsewhere/x.html", f"{P}/secret.txt", "base/root1/x.html"):
         out.append(f"{MARK_FW}\uff0f{rel.replace('/', chr(0xff0f))}")
         out.append(f"{MARK_FW}/{rel}")
